@@ -35,6 +35,10 @@ type faultWriter struct {
 
 func (w *faultWriter) Write(p []byte) (int, error) {
 	w.calls++
+	if w.calls > 8*len(w.want)+256 || len(w.got) > 2*len(w.want)+64 {
+		// far more writer calls or output than the whole expansion needs: the call will never end
+		panic(spinPanic{})
+	}
 	type ans struct {
 		k   int
 		err bool
@@ -183,6 +187,9 @@ func (r *faultRun) run(c *engine.Chooser) (refused bool) {
 	defer func() {
 		if x := recover(); x != nil {
 			if _, ok := x.(spinPanic); ok {
+				if w.notPfx {
+					r.fail("runaway|not-prefix", "a Decoder call produces output without end; %s", w.pfxMsg)
+				}
 				r.fail("spin", "a Decoder call keeps calling the writer without progress (W=%d B=%d)", r.W, r.B)
 				return
 			}
